@@ -73,11 +73,16 @@ _Static_assert(A5_SIZE_OK(A5_S0) && A5_SIZE_OK(A5_S1) && A5_SIZE_OK(A5_S2) && A5
 
 /* ------------------------------------------------------------------ the ghost scene */
 uint8_t a5_mem[A5_MEM];        /* the mapped stream == the stream file (arbitrary content: statics are havocked) */
+#ifndef A5_LEAF_WRITE
 long g_K;                      /* events laid out before `next` */
+#endif
 long g_P[A5_KMAX + 1];         /* offset of OUTPUT event j after sorting (events of the region have moved) */
 long g_perm[A5_KMAX];          /* output event j is input event g_perm[j] (chosen by qsort) */
 long g_b;                      /* bad0 is event g_b */
-long g_f;                      /* first is event g_f: the destination the specification names (bound in requires, assigned by nobody) */
+#ifndef A5_LEAF_WRITE
+long g_f;
+#endif
+                               /* first is event g_f: the destination the specification names (bound in requires, assigned by nobody) */
 long g_s, g_bb;                /* observers: an arbitrary INPUT event and an arbitrary byte position inside it */
 unsigned char g_oldbyte;       /* that byte before the call */
 long g_pos; unsigned char g_posbyte;   /* observer: an arbitrary byte of the mapping, and its value before the call */
@@ -102,6 +107,12 @@ static void *a5_calloc(size_t n, size_t m)
  * into the mapping (see ASSUMED above); calls logged.  TRUSTED as in the write_stream group of c16_sort.c: a
  * successful pwrite of count > 0 bytes writes at least one byte. */
 unsigned long g_pw_calls; int g_pw_fd; long g_pw_first, g_pw_next; unsigned g_pw_gap, g_pw_fail;
+#define A5_REGMAX (A5_O4 - A5_O0)
+#ifdef A5_LEAF_WRITE
+uint8_t a5_src[A5_REGMAX];     /* write_stream leaf: the source is the LAST `size` bytes of this object (reading past them leaves it) */
+long g_srcoff;
+long g_f, g_K;
+#endif
 ssize_t
 pwrite(int fd, const void *buf, size_t count, off_t offset)
 {
@@ -113,7 +124,21 @@ pwrite(int fd, const void *buf, size_t count, off_t offset)
 	size_t w = nondet_size_t();
 	__CPROVER_assume(w <= count && (count == 0 || w >= 1));
 	VASSERT(offset >= 0 && (size_t) offset + w <= A5_MEM, "pwrite inside the stream file (its size does not change)");
-	if (w > 0) memcpy(a5_mem + offset, buf, w);
+	/* a5_mem[offset .. offset + w) = buf[0 .. w): written out byte by byte at literal positions of the mapping (memcpy
+	 * with a symbolic length and offset exhausts the solver here: measured).  In the write_stream leaf `buf` is a loop
+	 * variable of a loop under contract: after the havoc CBMC has no value set for it, so the bytes are fetched from
+	 * the source OBJECT of that leaf at the position `buf` is ASSERTED to point to. */
+#ifdef A5_LEAF_WRITE
+	VASSERT((const uint8_t *) buf == a5_src + g_srcoff + (offset - OC(g_f)), "pwrite source and file offset advance in lockstep");
+#define A5_PWSRC(c) a5_src[g_srcoff + ((c) - OC(g_f))]
+#else
+#define A5_PWSRC(c) ((const uint8_t *) buf)[(c) - offset]
+#endif
+#define A5_PW1(c) if ((c) < A5_MEM && (c) >= offset && (size_t) ((c) - offset) < w) a5_mem[(c) < A5_MEM ? (c) : 0] = A5_PWSRC(c);
+#define A5_PW8(c) A5_PW1(c) A5_PW1((c) + 1) A5_PW1((c) + 2) A5_PW1((c) + 3) A5_PW1((c) + 4) A5_PW1((c) + 5) A5_PW1((c) + 6) A5_PW1((c) + 7)
+#define A5_PW64(c) A5_PW8(c) A5_PW8((c) + 8) A5_PW8((c) + 16) A5_PW8((c) + 24) A5_PW8((c) + 32) A5_PW8((c) + 40) A5_PW8((c) + 48) A5_PW8((c) + 56)
+	_Static_assert(A5_MEM <= 128, "unrolled store covers the mapping");
+	A5_PW64(0) A5_PW64(64)
 	g_pw_next = offset + (off_t) w;
 	return (ssize_t) w;
 }
@@ -183,7 +208,6 @@ uint64_t ovni_ev_get_clock(const struct ovni_ev *ev) { return ev->header.clock; 
 #define SIZE_OF_FLAGS(fl) (12L + ((((fl) & 0x0f) == 0) ? 0L : (long) ((fl) & 0x0f) + 1L))
 #define SHAPE (1 <= g_K && g_K <= A5_K)
 /* byte / clock of the mapping at a symbolic offset; of a buffer (holding a copy of the region) at a symbolic offset */
-#define A5_REGMAX (A5_O4 - A5_O0)
 static uint8_t sc_mb(long off) { for (long c = A5_O0; c < A5_O4; c++) if (off == c) return a5_mem[c]; return 0; }
 static uint64_t sc_mc(long off) { for (long c = A5_O0; c < A5_O4; c++) if (off == c) return CLKAT(a5_mem, c); return 0; }
 static uint8_t sc_bb(const uint8_t *m, long rel) { for (long c = 0; c < A5_REGMAX; c++) if (rel == c) return m[c]; return 0; }
@@ -409,15 +433,15 @@ void cr_write_stream(int fd, void *base, void *dst, const void *src, size_t size
 __CPROVER_requires(sc_pshape() && 0 <= g_bb && g_bb < 28)
 __CPROVER_requires(base == (void *) a5_mem && __CPROVER_pointer_equals(dst, (void *) EVPTR_O(g_f)) && size == (size_t) (OC(g_K) - OC(g_f)))
 __CPROVER_requires(__CPROVER_r_ok(src, size) && !__CPROVER_same_object(src, a5_mem))
-__CPROVER_requires(g_pw_calls == 0 && g_pw_gap == 0 && g_pw_fail == 0)
+__CPROVER_requires(g_pw_calls == 0 && g_pw_gap == 0 && g_pw_fail == 0 && 0 <= g_pos && g_pos < A5_MEM)
 /* frame: the whole mapping is havocked (a constant-size havoc is what CBMC encodes cheaply); that only [dst, dst + size)
  * changes is the clause on the observed byte g_pos below */
-__CPROVER_assigns(__CPROVER_object_whole(a5_mem), g_pw_calls, g_pw_fd, g_pw_first, g_pw_next, g_pw_gap, g_pw_fail, g_die_ok)
+__CPROVER_assigns(__CPROVER_object_whole(a5_mem), g_pw_calls, g_pw_fd, g_pw_first, g_pw_next, g_pw_gap, g_pw_fail, g_die_ok, g_died)
 /* one gap-free run of successful pwrites on fd covering exactly the region ... */
 __CPROVER_ensures(g_pw_fail == 0 && g_pw_gap == 0 && g_pw_calls >= 1 && g_pw_fd == fd && g_pw_first == OC(g_f) && g_pw_next == OC(g_K) && g_die_ok == OLD(g_die_ok))
 /* ... after which the file (== the mapping) holds the bytes of src, and no byte outside the region has changed */
 __CPROVER_ensures(sc_copy((const uint8_t *) src))
-__CPROVER_ensures(!(0 <= g_pos && g_pos < A5_MEM) || (g_pos >= OC(g_f) && g_pos < OC(g_K)) || a5_mem[g_pos] == OLD(a5_mem[g_pos]))
+__CPROVER_ensures((g_pos >= OC(g_f) && g_pos < OC(g_K)) || a5_mem[g_pos] == OLD(a5_mem[g_pos]))
 ;
 void cr_rebuild_ring(struct ring *r, long long start, struct ovni_ev *first, struct ovni_ev *last)
 __CPROVER_requires(RING_SHAPE(r) && RING_RANGE(R) && sc_pshape())
@@ -552,15 +576,14 @@ void h_leaf_ring_check(void)
 }
 #endif
 #ifdef A5_LEAF_WRITE
-/* the source is the LAST `size` bytes of an object of the largest region size: reading past them leaves the object */
-uint8_t a5_src[A5_REGMAX];
 void h_leaf_write_stream(void)
 {
 	a5_link();
-	__CPROVER_assume(sc_pshape());
+	__CPROVER_assume(0 <= g_f && g_f < g_K && g_K <= A5_K);
 	size_t size = (size_t) (OC(g_K) - OC(g_f));
 	int fd = nondet_int();
-	write_stream(fd, a5_mem, EVPTR_O(g_f), a5_src + (A5_REGMAX - size), size);
+	g_srcoff = A5_REGMAX - (long) size;
+	write_stream(fd, a5_mem, EVPTR_O(g_f), a5_src + g_srcoff, size);
 	REACH("write_stream returns");
 	if (g_pw_calls >= 3) REACH("three or more short writes");
 	if (g_K - g_f == A5_K && g_pw_calls == 1) REACH("largest region written at once");
